@@ -11,7 +11,7 @@ cross-check the composition.
 from symx.spec import obligation, Text, Bytes, Int, OptInt, Bool, SKIP
 from symx.bstr import lit, tracing
 from harness.common import (state_spawn, inv0, pending, AbsSearcher, AbsPat, LitPat, EndPat, Skip,
-                            ScriptedSpawn, frozen_time, empty, fake_re as _fake_re)
+                            ScriptedSpawn, frozen_time, empty, pick, fake_re as _fake_re)
 from pexpect.expect import Expecter, searcher_string, searcher_re
 from pexpect.exceptions import EOF, TIMEOUT
 import pexpect.spawnbase as SB
@@ -335,12 +335,16 @@ def L6_two_calls(S, c1, s, W1, W2, end1, kind2):
     return tag
 
 
-@obligation(params=dict(S=Text(5), c1=Int(0, 5), how=Int(0, 2)),
-            tags={2: 'readline pieces', 3: 'read(-1)', 4: 'readlines'}, timeout=280, split=('how',),
-            note='readline/readlines/iteration/read(-1): returned pieces concatenate to the stream (2 reads then EOF)')
-def L7_lines(S, c1, how):
+@obligation(params=dict(S=Text(5), c1=Int(0, 5), how=Int(0, 5), n=Int(0, 6)),
+            tags={2: 'readline pieces', 3: 'read(-1)', 4: 'readlines', 5: 'read(n) then read()', 6: 'read(n) repeatedly',
+                  7: 'iteration'}, timeout=280, split=('how',),
+            note='readline/readlines/iteration/read(-1)/read(n): returned pieces concatenate to the stream (2 reads '
+                 'then EOF); read(n) returns exactly min(n, what is left) characters')
+def L7_lines(S, c1, how, n=1):
     if c1 > len(S):
         return SKIP
+    if how >= 3:
+        return _read_n(S, c1, how, n)
     sp = ScriptedSpawn([('data', S[:c1]), ('data', S[c1:]), ('eof',)])
     sp.timeout = 5
     out = lit('')
@@ -370,11 +374,54 @@ def L7_lines(S, c1, how):
     return tag
 
 
+def _read_n(S, c1, how, n):
+    how = pick(how, 3, 5)
+    sp = ScriptedSpawn([('data', S[:c1]), ('data', S[c1:]), ('eof',)])
+    sp.timeout = 5
+    with frozen_time(), _fake_re():
+        if how == 5:
+            out = lit('')
+            k = 0
+            for line in sp:
+                out = out + line
+                k += 1
+                if k > 7:
+                    return 0
+            if not (out == S) or len(sp.buffer) != 0:
+                return 0
+            return 7
+        n = pick(n, 0, 6)
+        first = sp.read(n)
+        want = n if n < len(S) else len(S)
+        if len(first) != want or not (first == S[:want]):
+            return 0
+        if how == 3:
+            rest = sp.read()
+            if not (first + rest == S) or len(sp.buffer) != 0:
+                return 0
+            return 5
+        if n == 0:
+            return SKIP
+        out = first
+        for _ in range(7):
+            piece = sp.read(n)
+            if len(piece) == 0:
+                break
+            if len(piece) > n:
+                return 0
+            out = out + piece
+        else:
+            return 0
+        if not (out == S) or len(sp.buffer) != 0:
+            return 0
+        return 6
+
+
 def dry_runs():
     yield 'L6_two_calls', dict(S='abc', c1=1, s='bc', W1=None, W2=2, end1=0, kind2=1)
     yield 'L6_two_calls', dict(S='abc', c1=2, s='zz', W1=1, W2=None, end1=1, kind2=0)
-    for how in range(3):
-        yield 'L7_lines', dict(S='a\r\nb', c1=2, how=how)
+    for how in range(6):
+        yield 'L7_lines', dict(S='a\r\nb', c1=2, how=how, n=2)
     yield 'L5_setter', dict(P='abc', cut=1, V='xy', W=None, lb=0, D='q')
     yield 'L4_end_steps', dict(P='abc', cut=1, W=None, which=0, mark=0)
     yield 'L4_end_steps', dict(P='abc', cut=1, W=2, which=1, mark=-1)
